@@ -66,7 +66,10 @@ def run(module: str, cfg: str, workdir: str, *, extra_files: dict = None, worker
     with open(os.path.join(workdir, cfg_name), "w", encoding="utf-8") as handle:
         handle.write(cfg)
     meta = os.path.join(workdir, f"meta{tag}")
-    cmd = ["java", "-XX:+UseParallelGC"]
+    # (TLC's own temporary directories go into the scratch directory of the check and are removed with it)
+    jtmp = os.path.join(workdir, f"jtmp{tag}")
+    os.makedirs(jtmp, exist_ok=True)
+    cmd = ["java", "-XX:+UseParallelGC", f"-Djava.io.tmpdir={jtmp}"]
     if heap:
         cmd.append(f"-Xmx{heap}")
     if queue_dfs:
